@@ -56,6 +56,10 @@ Definition past_close (p : ppc) : bool :=
 Definition past_join_feeder (p : ppc) : bool :=
   match p with PPut | PClose | PJoinFeeder => false | _ => true end.
 
+(* a worker that has not left its loop normally: still looping, or crashed *)
+Definition not_exit0 (x : wst) : bool :=
+  match x with WExited 0 => false | _ => true end.
+
 Record Inv (bad : nat -> bool) (par : nat) (s : vstate) : Prop := {
   i_fixed : v_fixed s = true;
   i_ord : nrecv s <= npiped s /\ npiped s <= nput s /\ nput s <= v_n s;
@@ -67,7 +71,8 @@ Record Inv (bad : nat -> bool) (par : nat) (s : vstate) : Prop := {
   i_flag : flag s = flag_pc (pc s);
   i_len : length (ws s) = par;
   i_seen : forall w, nth_error (ws s) w = Some (WAtGet true) -> flag s = true;
-  i_exit0 : forall w, nth_error (ws s) w = Some (WExited 0) -> nrecv s = v_n s;
+  i_exit0 : v_cont s = false -> forall w, nth_error (ws s) w = Some (WExited 0) -> nrecv s = v_n s;
+  i_live : nrecv s < v_n s -> exists h x, nth_error (ws s) h = Some x /\ not_exit0 x = true;
   i_exit_code : forall w c, nth_error (ws s) w = Some (WExited c) -> c = 0 \/ (c = 1 /\ exists i, i < nrecv s /\ bad i = true);
   i_started : map fst (started s) = rev (seq 0 (nrecv s));
   i_finished : finished s = filter (fun i => negb (bad i)) (map fst (started s));
@@ -75,9 +80,10 @@ Record Inv (bad : nat -> bool) (par : nat) (s : vstate) : Prop := {
   i_ret : pc s = PReturned -> forall w, w < par -> exists c, nth_error (ws s) w = Some (WExited c)
 }.
 
-Lemma inv_init bad n par cap pcap : Inv bad par (init n par cap pcap true).
+Lemma inv_init_c bad n par cap pcap cont : 1 <= par -> Inv bad par (init_c n par cap pcap true cont).
 Proof.
-  unfold init. constructor; cbn [v_fixed nrecv npiped nput v_n pc closed fdone flag ws started finished].
+  intros Hpar.
+  unfold init_c. constructor; cbn [v_fixed v_cont nrecv npiped nput v_n pc closed fdone flag ws started finished].
   - reflexivity.
   - lia.
   - destruct n; [discriminate|lia].
@@ -88,7 +94,9 @@ Proof.
   - destruct n; reflexivity.
   - apply repeat_length.
   - intros w H. apply nth_error_In, repeat_spec in H. discriminate.
-  - intros w H. apply nth_error_In, repeat_spec in H. discriminate.
+  - intros _ w H. apply nth_error_In, repeat_spec in H. discriminate.
+  - intros _. exists 0, WAtFlag. split; [|reflexivity].
+    destruct par; [lia|reflexivity].
   - intros w c H. apply nth_error_In, repeat_spec in H. discriminate.
   - reflexivity.
   - reflexivity.
@@ -96,19 +104,22 @@ Proof.
   - destruct n; discriminate.
 Qed.
 
+Lemma inv_init bad n par cap pcap : 1 <= par -> Inv bad par (init n par cap pcap true).
+Proof. apply inv_init_c. Qed.
+
 Ltac inv_fields H :=
-  destruct H as [Hfx Hord Hput Hnput Hcl Hfd Hpjf Hfl Hlen Hseen Hex0 Hexc Hst Hfin Hjoin Hret].
+  destruct H as [Hfx Hord Hput Hnput Hcl Hfd Hpjf Hfl Hlen Hseen Hex0 Hlive Hexc Hst Hfin Hjoin Hret].
 
 Lemma seq_snoc a n : seq a (S n) = seq a n ++ [a + n].
 Proof. rewrite seq_S. reflexivity. Qed.
 
-Ltac fin := cbn [v_fixed nrecv npiped nput v_n pc closed fdone flag ws started finished].
+Ltac fin := cbn [v_fixed v_cont nrecv npiped nput v_n pc closed fdone flag ws started finished].
 
 Lemma inv_step bad par s a : 1 <= par -> Inv bad par s -> Inv bad par (step bad s a).
 Proof.
   intros Hpar H. unfold step. destruct (enabled_b s a) eqn:En; cbn [negb]; [|exact H].
   inv_fields H.
-  destruct a as [| | | | | |w|w|w|w]; unfold enabled_b in En.
+  destruct a as [| | | | | |w|w|w|w|w]; unfold enabled_b in En.
   - (* Put *)
     destruct (pc s) eqn:Epc; try discriminate.
     apply andb_true_iff in En. destruct En as [E1 E2]. apply Nat.ltb_lt in E1, E2.
@@ -180,9 +191,14 @@ Proof.
     + intros w' Hw'. destruct (Nat.eq_dec w' w) as [->|Hne].
       * rewrite nth_error_set_w_eq in Hw' by assumption. destruct (bad (nrecv s)); discriminate.
       * rewrite nth_error_set_w_neq in Hw' by assumption. eauto.
-    + intros w' Hw'. destruct (Nat.eq_dec w' w) as [->|Hne].
+    + intros Hc w' Hw'. destruct (Nat.eq_dec w' w) as [->|Hne].
       * rewrite nth_error_set_w_eq in Hw' by assumption. destruct (bad (nrecv s)); discriminate.
-      * rewrite nth_error_set_w_neq in Hw' by assumption. specialize (Hex0 _ Hw'). lia.
+      * rewrite nth_error_set_w_neq in Hw' by assumption. specialize (Hex0 Hc _ Hw'). lia.
+    + intros Hlt. destruct Hlive as (h & x & Hh & Hx); [lia|].
+      destruct (Nat.eq_dec h w) as [->|Hne].
+      * exists w. eexists. split; [apply nth_error_set_w_eq; assumption|].
+        destruct (bad (nrecv s)); reflexivity.
+      * exists h, x. split; [|assumption]. rewrite nth_error_set_w_neq by assumption. assumption.
     + intros w' c Hw'. destruct (Nat.eq_dec w' w) as [->|Hne].
       * rewrite nth_error_set_w_eq in Hw' by assumption.
         destruct (bad (nrecv s)) eqn:Eb; [|discriminate]. injection Hw' as <-.
@@ -208,13 +224,22 @@ Proof.
     + intros w' Hw'. destruct (Nat.eq_dec w' w) as [->|Hne].
       * rewrite nth_error_set_w_eq in Hw' by assumption. destruct seen; discriminate.
       * rewrite nth_error_set_w_neq in Hw' by assumption. eauto.
-    + intros w' Hw'. destruct (Nat.eq_dec w' w) as [->|Hne].
+    + intros Hc w' Hw'. destruct (Nat.eq_dec w' w) as [->|Hne].
       * rewrite nth_error_set_w_eq in Hw' by assumption. destruct seen; [|discriminate].
         assert (Hf : flag s = true) by (apply (Hseen w); assumption).
         rewrite Hfl in Hf. assert (Hp : npiped s = v_n s).
         { apply Hpjf. destruct (pc s); try discriminate; reflexivity. }
         lia.
       * rewrite nth_error_set_w_neq in Hw' by assumption. eauto.
+    + intros Hlt. destruct (Hlive Hlt) as (h & x & Hh & Hx).
+      destruct (Nat.eq_dec h w) as [->|Hne].
+      * exists w. eexists. split; [apply nth_error_set_w_eq; assumption|].
+        destruct seen; [|reflexivity]. exfalso.
+        assert (Hf : flag s = true) by (apply (Hseen w); assumption).
+        rewrite Hfl in Hf. assert (Hp : npiped s = v_n s).
+        { apply Hpjf. destruct (pc s); try discriminate; reflexivity. }
+        lia.
+      * exists h, x. split; [|assumption]. rewrite nth_error_set_w_neq by assumption. assumption.
     + intros w' c Hw'. destruct (Nat.eq_dec w' w) as [->|Hne].
       * rewrite nth_error_set_w_eq in Hw' by assumption. destruct seen; [|discriminate].
         injection Hw' as <-. left. reflexivity.
@@ -235,11 +260,45 @@ Proof.
     + intros w' Hw'. destruct (Nat.eq_dec w' w) as [->|Hne].
       * rewrite nth_error_set_w_eq in Hw' by assumption. congruence.
       * rewrite nth_error_set_w_neq in Hw' by assumption. eauto.
-    + intros w' Hw'. destruct (Nat.eq_dec w' w) as [->|Hne].
+    + intros Hc w' Hw'. destruct (Nat.eq_dec w' w) as [->|Hne].
       * rewrite nth_error_set_w_eq in Hw' by assumption. discriminate.
       * rewrite nth_error_set_w_neq in Hw' by assumption. eauto.
+    + intros Hlt. destruct (Hlive Hlt) as (h & x & Hh & Hx).
+      destruct (Nat.eq_dec h w) as [->|Hne].
+      * exists w. eexists. split; [apply nth_error_set_w_eq; assumption|reflexivity].
+      * exists h, x. split; [|assumption]. rewrite nth_error_set_w_neq by assumption. assumption.
     + intros w' c Hw'. destruct (Nat.eq_dec w' w) as [->|Hne].
       * rewrite nth_error_set_w_eq in Hw' by assumption. discriminate.
+      * rewrite nth_error_set_w_neq in Hw' by assumption. eauto.
+    + intros k Hk. destruct (Hjoin k Hk) as [Hk1 Hk2]. split; [assumption|].
+      intros w' Hw'. destruct (Hk2 w' Hw') as (c & Hc).
+      destruct (Nat.eq_dec w' w) as [->|Hne]; [congruence|].
+      rewrite nth_error_set_w_neq by assumption. eauto.
+    + intros Hr w' Hw'. destruct (Hret Hr w' Hw') as (c & Hc).
+      destruct (Nat.eq_dec w' w) as [->|Hne]; [congruence|].
+      rewrite nth_error_set_w_neq by assumption. eauto.
+  - (* CTimeout: Empty under reader-lock contention *)
+    apply andb_true_iff in En. destruct En as [En Eoth].
+    apply andb_true_iff in En. destruct En as [En Epipe].
+    apply andb_true_iff in En. destruct En as [Econt Eat].
+    unfold get_w, at_get in *. destruct (nth_error (ws s) w) as [[|seen|c]|] eqn:Ew; try discriminate.
+    pose proof (nth_error_lt _ _ _ Ew) as Hwl.
+    (* the other worker inside get() *)
+    unfold other_at_get in Eoth. apply existsb_exists in Eoth. destruct Eoth as (h & _ & Eh).
+    apply andb_true_iff in Eh. destruct Eh as [Ehw Ehg]. apply negb_true_iff, Nat.eqb_neq in Ehw.
+    destruct (nth_error (ws s) h) as [[|seenh|ch]|] eqn:Eh; try discriminate.
+    rewrite Hfx. unfold upd_ws.
+    constructor; fin; auto.
+    + rewrite set_w_length; auto.
+    + intros w' Hw'. destruct (Nat.eq_dec w' w) as [->|Hne].
+      * rewrite nth_error_set_w_eq in Hw' by assumption. destruct seen; discriminate.
+      * rewrite nth_error_set_w_neq in Hw' by assumption. eauto.
+    + intros Hc. congruence.
+    + intros _. exists h, (WAtGet seenh). split; [|reflexivity].
+      rewrite nth_error_set_w_neq by assumption. exact Eh.
+    + intros w' c Hw'. destruct (Nat.eq_dec w' w) as [->|Hne].
+      * rewrite nth_error_set_w_eq in Hw' by assumption. destruct seen; [|discriminate].
+        injection Hw' as <-. left. reflexivity.
       * rewrite nth_error_set_w_neq in Hw' by assumption. eauto.
     + intros k Hk. destruct (Hjoin k Hk) as [Hk1 Hk2]. split; [assumption|].
       intros w' Hw'. destruct (Hk2 w' Hw') as (c & Hc).
@@ -258,9 +317,13 @@ Proof.
   apply IH; [assumption|]. apply inv_step; assumption.
 Qed.
 
+Lemma inv_reachable_c bad n par cap pcap cont l :
+  1 <= par -> Inv bad par (run bad (init_c n par cap pcap true cont) l).
+Proof. intros Hp. apply inv_run; [assumption|apply inv_init_c; assumption]. Qed.
+
 Lemma inv_reachable bad n par cap pcap l :
   1 <= par -> Inv bad par (run bad (init n par cap pcap true) l).
-Proof. intros Hp. apply inv_run; [assumption|apply inv_init]. Qed.
+Proof. apply inv_reachable_c. Qed.
 
 (* ---- terminal states ---------------------------------------------------------- *)
 
@@ -280,7 +343,11 @@ Proof.
   { intros w Hw. destruct (Hret Hr w Hw) as (c & Hc).
     destruct (Hexc _ _ Hc) as [->|[-> (i & Hi & Hb)]]; [assumption|].
     rewrite Hbad in Hb by lia. discriminate. }
-  assert (Hn : nrecv s = v_n s) by (apply (Hex0 0); apply Hall; lia).
+  assert (Hn : nrecv s = v_n s).
+  { destruct (Nat.eq_dec (nrecv s) (v_n s)) as [E|NE]; [exact E|]. exfalso.
+    destruct Hlive as (h & x & Hh & Hx); [lia|].
+    pose proof (nth_error_lt _ _ _ Hh) as Hl. rewrite Hlen in Hl.
+    rewrite (Hall h Hl) in Hh. injection Hh as <-. discriminate. }
   repeat split; auto.
   - rewrite Hst, Hn. reflexivity.
   - rewrite Hfin, Hst, Hn.
@@ -291,10 +358,16 @@ Proof.
     apply Hf. intros i Hi. apply in_rev, in_seq in Hi. lia.
 Qed.
 
-(* a worker never leaves its loop normally while items are outstanding *)
+(* without lock contention a worker never leaves its loop normally while items
+   are outstanding; with it, some worker is still looping (or has crashed) *)
 Lemma no_early_exit bad par s w :
-  Inv bad par s -> nth_error (ws s) w = Some (WExited 0) -> nrecv s = v_n s.
-Proof. intros H. apply (i_exit0 _ _ _ H). Qed.
+  Inv bad par s -> v_cont s = false -> nth_error (ws s) w = Some (WExited 0) -> nrecv s = v_n s.
+Proof. intros H Hc. apply (i_exit0 _ _ _ H Hc). Qed.
+
+Lemma someone_stays bad par s :
+  Inv bad par s -> nrecv s < v_n s ->
+  exists h x, nth_error (ws s) h = Some x /\ not_exit0 x = true.
+Proof. intros H. apply (i_live _ _ _ H). Qed.
 
 (* ---- progress ------------------------------------------------------------------ *)
 
@@ -333,7 +406,7 @@ Lemma measure_decreases bad par s a :
 Proof.
   intros Hpar H En Hpoll. pose proof H as H'. inv_fields H.
   unfold step. rewrite En. cbn [negb].
-  destruct a as [| | | | | |w|w|w|w]; unfold enabled_b in En; unfold measure.
+  destruct a as [| | | | | |w|w|w|w|w]; unfold enabled_b in En; unfold measure.
   - destruct (pc s) eqn:Epc; try discriminate.
     apply andb_true_iff in En. destruct En as [E1 E2]. apply Nat.ltb_lt in E1, E2. fin.
     destruct (Nat.eqb (S (nput s)) (v_n s)); cbn [pc_rank]; destruct (fdone s); lia.
@@ -363,6 +436,14 @@ Proof.
     cbn [polling] in Hpoll. apply negb_false_iff in Hpoll. rewrite Hpoll.
     pose proof (sum_rank_set_w (ws s) w _ (WAtGet true) Ew) as Hs.
     cbn [w_rank] in *. destruct (fdone s); lia.
+  - apply andb_true_iff in En. destruct En as [En _].
+    apply andb_true_iff in En. destruct En as [En _].
+    apply andb_true_iff in En. destruct En as [_ Eat].
+    unfold get_w, at_get in *. destruct (nth_error (ws s) w) as [[|seen|c]|] eqn:Ew; try discriminate.
+    rewrite Hfx. unfold upd_ws. fin.
+    cbn [polling] in Hpoll. apply negb_false_iff in Hpoll.
+    pose proof (sum_rank_set_w (ws s) w _ (if seen then WExited 0 else WAtFlag) Ew) as Hs.
+    destruct seen; cbn [w_rank] in *; destruct (fdone s); lia.
 Qed.
 
 (* ---- no deadlock ---------------------------------------------------------------- *)
@@ -372,14 +453,13 @@ Definition can_progress (bad : nat -> bool) (s : vstate) : Prop :=
   (exists a0 a1, enabled_b s a0 = true /\
                  enabled_b (step bad s a0) a1 = true /\ polling (step bad s a0) a1 = false).
 
-Lemma worker_can_receive bad par s w :
+Lemma worker_can_receive bad par s :
   Inv bad par s -> (forall i, i < v_n s -> bad i = false) ->
-  w < par -> nrecv s < npiped s -> nrecv s < v_n s ->
+  nrecv s < npiped s -> nrecv s < v_n s ->
   can_progress bad s.
 Proof.
-  intros H Hbad Hw Hpipe Hn. pose proof H as H'. inv_fields H.
-  destruct (nth_error (ws s) w) as [x|] eqn:Ew.
-  2:{ apply nth_error_None in Ew. lia. }
+  intros H Hbad Hpipe Hn. pose proof H as H'. inv_fields H.
+  destruct (Hlive Hn) as (w & x & Ew & Hx).
   destruct x as [|seen|c].
   - right. exists (AIsSet w), (ARecv w).
     assert (E0 : enabled_b s (AIsSet w) = true) by (unfold enabled_b, get_w; rewrite Ew; reflexivity).
@@ -389,7 +469,7 @@ Proof.
   - left. exists (ARecv w). split; [|reflexivity].
     unfold enabled_b, get_w. rewrite Ew. apply Nat.ltb_lt. assumption.
   - exfalso. destruct (Hexc _ _ Ew) as [->|[-> (i & Hi & Hb)]].
-    + specialize (Hex0 _ Ew). lia.
+    + discriminate.
     + rewrite Hbad in Hb by lia. discriminate.
 Qed.
 
@@ -408,7 +488,7 @@ Proof.
     + apply Nat.ltb_ge in E1.
       destruct (Nat.ltb (npiped s) (nput s) && Nat.ltb (npiped s - nrecv s) (v_pcap s)) eqn:E2.
       * left. exists AFlush. split; [exact E2|reflexivity].
-      * apply (worker_can_receive bad par s 0 H' Hbad); try lia.
+      * apply (worker_can_receive bad par s H' Hbad); try lia.
         apply andb_false_iff in E2. destruct E2 as [E2|E2]; apply Nat.ltb_ge in E2; lia.
   - left. exists AClose. split; [|reflexivity]. unfold enabled_b. rewrite Epc. reflexivity.
   - (* waiting for the feeder *)
@@ -424,7 +504,7 @@ Proof.
       * destruct (Nat.ltb (npiped s - nrecv s) (v_pcap s)) eqn:E2.
         -- left. exists AFlush. split; [|reflexivity]. unfold enabled_b. rewrite E2.
            apply andb_true_iff. split; [apply Nat.ltb_lt; lia|reflexivity].
-        -- apply Nat.ltb_ge in E2. apply (worker_can_receive bad par s 0 H' Hbad); lia.
+        -- apply Nat.ltb_ge in E2. apply (worker_can_receive bad par s H' Hbad); lia.
   - left. exists ASet. split; [|reflexivity]. unfold enabled_b. rewrite Epc. reflexivity.
   - (* joining worker k *)
     destruct (Hjoin k eq_refl) as [Hk _].
@@ -447,24 +527,45 @@ Qed.
 (* the queue parameters never change *)
 Lemma params_step bad s a :
   v_n (step bad s a) = v_n s /\ v_cap (step bad s a) = v_cap s /\
-  v_pcap (step bad s a) = v_pcap s /\ v_fixed (step bad s a) = v_fixed s.
+  v_pcap (step bad s a) = v_pcap s /\ v_fixed (step bad s a) = v_fixed s /\
+  v_cont (step bad s a) = v_cont s.
 Proof.
-  unfold step. destruct (enabled_b s a); cbn [negb]; [|auto].
-  destruct a; unfold upd_pc, upd_ws; cbn; auto.
-  destruct (get_w (ws s) w) as [[|seen|c]|]; cbn; auto.
+  unfold step. destruct (enabled_b s a); cbn [negb]; [|auto 6].
+  destruct a; unfold upd_pc, upd_ws; cbn; auto 6;
+  destruct (get_w (ws s) w) as [[|seen|c]|]; cbn; auto 6.
 Qed.
 
 Lemma params_run bad l : forall s,
   v_n (run bad s l) = v_n s /\ v_cap (run bad s l) = v_cap s /\
-  v_pcap (run bad s l) = v_pcap s /\ v_fixed (run bad s l) = v_fixed s.
+  v_pcap (run bad s l) = v_pcap s /\ v_fixed (run bad s l) = v_fixed s /\
+  v_cont (run bad s l) = v_cont s.
 Proof.
-  induction l as [|a l IH]; intros s; [auto|]. cbn [run fold_left].
-  destruct (IH (step bad s a)) as (A & B & C & D).
-  destruct (params_step bad s a) as (A' & B' & C' & D').
-  unfold run in *. rewrite A, B, C, D. auto.
+  induction l as [|a l IH]; intros s; [auto 6|]. cbn [run fold_left].
+  destruct (IH (step bad s a)) as (A & B & C & D & E).
+  destruct (params_step bad s a) as (A' & B' & C' & D' & E').
+  unfold run in *. rewrite A, B, C, D, E. auto 6.
 Qed.
 
-(* ---- headline theorems over every schedule ------------------------------------ *)
+(* ---- headline theorems over every schedule ------------------------------------
+   [cont = false]: Empty only on an empty pipe (the property's quantifier);
+   [cont = true]: also Empty raised under reader-lock contention. *)
+
+Theorem visit_terminal_c n par cap pcap cont (l : list act) :
+  1 <= par ->
+  let s := run (fun _ => false) (init_c n par cap pcap true cont) l in
+  pc s = PReturned ->
+  nrecv s = n /\
+  map fst (started s) = rev (seq 0 n) /\
+  finished s = rev (seq 0 n) /\
+  (forall w, w < par -> nth_error (ws s) w = Some (WExited 0)).
+Proof.
+  intros Hpar s Hr.
+  pose proof (inv_reachable_c (fun _ => false) n par cap pcap cont l Hpar) as HI. fold s in HI.
+  destruct (params_run (fun _ => false) l (init_c n par cap pcap true cont)) as (Hn & _).
+  fold s in Hn. cbn [init_c v_n] in Hn.
+  destruct (terminal_facts _ par s Hpar HI Hr (fun _ _ => eq_refl)) as (A & B & C & D).
+  rewrite Hn in *. auto.
+Qed.
 
 Theorem visit_terminal n par cap pcap (l : list act) :
   1 <= par ->
@@ -474,25 +575,34 @@ Theorem visit_terminal n par cap pcap (l : list act) :
   map fst (started s) = rev (seq 0 n) /\
   finished s = rev (seq 0 n) /\
   (forall w, w < par -> nth_error (ws s) w = Some (WExited 0)).
+Proof. apply visit_terminal_c. Qed.
+
+Theorem visit_no_deadlock_c n par cap pcap cont (l : list act) :
+  1 <= par -> 1 <= cap -> 1 <= pcap ->
+  let s := run (fun _ => false) (init_c n par cap pcap true cont) l in
+  pc s <> PReturned -> can_progress (fun _ => false) s.
 Proof.
-  intros Hpar s Hr.
-  pose proof (inv_reachable (fun _ => false) n par cap pcap l Hpar) as HI. fold s in HI.
-  destruct (params_run (fun _ => false) l (init n par cap pcap true)) as (Hn & _).
-  fold s in Hn. cbn [init v_n] in Hn.
-  destruct (terminal_facts _ par s Hpar HI Hr (fun _ _ => eq_refl)) as (A & B & C & D).
-  rewrite Hn in *. auto.
+  intros Hpar Hcap Hpcap s Hr.
+  pose proof (inv_reachable_c (fun _ => false) n par cap pcap cont l Hpar) as HI. fold s in HI.
+  destruct (params_run (fun _ => false) l (init_c n par cap pcap true cont)) as (Hn & Hc & Hp & _).
+  fold s in Hn, Hc, Hp. cbn [init_c v_n v_cap v_pcap] in Hn, Hc, Hp.
+  apply (no_deadlock _ par); auto; try lia.
 Qed.
 
 Theorem visit_no_deadlock n par cap pcap (l : list act) :
   1 <= par -> 1 <= cap -> 1 <= pcap ->
   let s := run (fun _ => false) (init n par cap pcap true) l in
   pc s <> PReturned -> can_progress (fun _ => false) s.
+Proof. apply visit_no_deadlock_c. Qed.
+
+Theorem visit_measure_c n par cap pcap cont (l : list act) a :
+  1 <= par ->
+  let s := run (fun _ => false) (init_c n par cap pcap true cont) l in
+  enabled_b s a = true -> polling s a = false ->
+  measure par (step (fun _ => false) s a) < measure par s.
 Proof.
-  intros Hpar Hcap Hpcap s Hr.
-  pose proof (inv_reachable (fun _ => false) n par cap pcap l Hpar) as HI. fold s in HI.
-  destruct (params_run (fun _ => false) l (init n par cap pcap true)) as (Hn & Hc & Hp & _).
-  fold s in Hn, Hc, Hp. cbn [init v_n v_cap v_pcap] in Hn, Hc, Hp.
-  apply (no_deadlock _ par); auto; try lia.
+  intros Hpar s En Hp. apply measure_decreases; auto.
+  apply inv_reachable_c. assumption.
 Qed.
 
 Theorem visit_measure n par cap pcap (l : list act) a :
@@ -500,10 +610,7 @@ Theorem visit_measure n par cap pcap (l : list act) a :
   let s := run (fun _ => false) (init n par cap pcap true) l in
   enabled_b s a = true -> polling s a = false ->
   measure par (step (fun _ => false) s a) < measure par s.
-Proof.
-  intros Hpar s En Hp. apply measure_decreases; auto.
-  apply inv_reachable. assumption.
-Qed.
+Proof. apply visit_measure_c. Qed.
 
 (* exactly-once, stated on the log itself: in every reachable state the items
    handed to workers are 0..nrecv-1, each exactly once, in FIFO order *)
@@ -515,10 +622,41 @@ Theorem visit_safety bad n par cap pcap (l : list act) :
 Proof.
   intros Hpar s.
   pose proof (inv_reachable bad n par cap pcap l Hpar) as HI. fold s in HI.
-  destruct (params_run bad l (init n par cap pcap true)) as (Hn & _).
-  fold s in Hn. cbn [init v_n] in Hn.
-  inv_fields HI. rewrite <- Hn. repeat split; auto. lia.
+  destruct (params_run bad l (init n par cap pcap true)) as (Hn & _ & _ & _ & Hc).
+  fold s in Hn, Hc. cbn [init init_c v_n v_cont] in Hn, Hc.
+  inv_fields HI. rewrite <- Hn. repeat split; auto; [lia|]. apply Hex0. exact Hc.
 Qed.
+
+(* the same under lock contention: a worker may now leave its loop normally with
+   items outstanding, but never the last one: some worker is still looping (or
+   has crashed, which only a raising callback causes) *)
+Theorem visit_safety_c bad n par cap pcap cont (l : list act) :
+  1 <= par ->
+  let s := run bad (init_c n par cap pcap true cont) l in
+  map fst (started s) = rev (seq 0 (nrecv s)) /\ nrecv s <= n /\
+  (nrecv s < n -> exists h x, nth_error (ws s) h = Some x /\ not_exit0 x = true) /\
+  (forall w, nth_error (ws s) w = Some (WExited 1) -> exists i, i < nrecv s /\ bad i = true).
+Proof.
+  intros Hpar s.
+  pose proof (inv_reachable_c bad n par cap pcap cont l Hpar) as HI. fold s in HI.
+  destruct (params_run bad l (init_c n par cap pcap true cont)) as (Hn & _).
+  fold s in Hn. cbn [init_c v_n] in Hn.
+  inv_fields HI. rewrite <- Hn. repeat split; auto; [lia|].
+  intros w Hw. destruct (Hexc _ _ Hw) as [E|[_ H]]; [discriminate|exact H].
+Qed.
+
+(* contention is not vacuous: a schedule in which worker 0 leaves its loop on a
+   contended Empty while an item is still in the pipe, and worker 1 then takes it *)
+Definition contended_schedule : list act :=
+  [AIsSet 0; AIsSet 1; APut; AFlush; ARecv 0; APut; AFlush; AClose; AFeederExit; AJoinThread; ASet;
+   AIsSet 0; AIsSet 1; ACTimeout 0; ARecv 1; AIsSet 1; ATimeout 1; AJoin 0; AJoin 1].
+
+Lemma contended_exit_reachable :
+  let s1 := run (fun _ => false) (init_c 2 2 4 4 true true) (firstn 14 contended_schedule) in
+  let s2 := run (fun _ => false) (init_c 2 2 4 4 true true) contended_schedule in
+  (nth_error (ws s1) 0 = Some (WExited 0) /\ nrecv s1 = 1) /\
+  (pc s2 = PReturned /\ rev (started s2) = [(0, 0); (1, 1)]).
+Proof. vm_compute. auto. Qed.
 
 (* ---- raising callbacks (C19) ---------------------------------------------------- *)
 
@@ -532,7 +670,7 @@ Lemma crash_recorded_step bad par s a :
 Proof.
   intros HI Hc. unfold step. destruct (enabled_b s a) eqn:En; cbn [negb]; [|exact Hc].
   pose proof (i_fixed _ _ _ HI) as Hfx.
-  destruct a as [| | | | | |w|w|w|w]; unfold enabled_b in En; unfold crash_recorded in *; fin;
+  destruct a as [| | | | | |w|w|w|w|w]; unfold enabled_b in En; unfold crash_recorded in *; fin;
     try exact Hc; try (unfold upd_pc; fin; exact Hc).
   - unfold get_w in En. destruct (nth_error (ws s) w) as [[|seen|c]|] eqn:Ew; try discriminate.
     pose proof (nth_error_lt _ _ _ Ew) as Hwl.
@@ -553,6 +691,14 @@ Proof.
     intros H. destruct (Hc H) as (w' & Hw').
     exists w'. destruct (Nat.eq_dec w' w) as [->|Hne]; [congruence|].
     rewrite nth_error_set_w_neq by assumption. exact Hw'.
+  - apply andb_true_iff in En. destruct En as [En _].
+    apply andb_true_iff in En. destruct En as [En _].
+    apply andb_true_iff in En. destruct En as [_ Eat].
+    unfold get_w, at_get in *. destruct (nth_error (ws s) w) as [[|seen|c]|] eqn:Ew; try discriminate.
+    pose proof (nth_error_lt _ _ _ Ew) as Hwl. unfold upd_ws. fin.
+    intros H. destruct (Hc H) as (w' & Hw').
+    exists w'. destruct (Nat.eq_dec w' w) as [->|Hne]; [congruence|].
+    rewrite nth_error_set_w_neq by assumption. exact Hw'.
 Qed.
 
 Theorem crash_visible bad n par cap pcap (l : list act) :
@@ -561,11 +707,11 @@ Theorem crash_visible bad n par cap pcap (l : list act) :
   (exists i, i < nrecv s /\ bad i = true) <-> (exists w, nth_error (ws s) w = Some (WExited 1)).
 Proof.
   intros Hpar s. split.
-  - subst s. revert Hpar. generalize (inv_init bad n par cap pcap).
+  - subst s. generalize (inv_init bad n par cap pcap Hpar). revert Hpar.
     assert (H0 : crash_recorded bad (init n par cap pcap true)).
     { intros (i & Hi & _). cbn in Hi. lia. }
     revert H0. generalize (init n par cap pcap true) as s0.
-    induction l as [|a l IH]; intros s0 Hc HI Hpar; [exact Hc|].
+    induction l as [|a l IH]; intros s0 Hc Hpar HI; [exact Hc|].
     cbn [run fold_left]. apply IH; auto.
     + apply crash_recorded_step with par; assumption.
     + apply inv_step; assumption.
